@@ -2,6 +2,7 @@
 # Model: coq/Model/Attribution.v (+ LibMappings.v); spec: coq/Spec/AttributionSpec.v; tie: harness/h_samply psd mode.
 import os, re, sys
 from . import common as K
+from . import c02e
 
 PROP = "C02"
 RULE = ("cases = a queue of timestamped mapping operations (Add/Remove/Clear, a small tagged stream with Move and with unordered timestamps) and a list of "
@@ -77,13 +78,21 @@ def gen(tier, rng, scale):
                 frames.append(k + (str(a) if k != "t" else ""))
             samples.append([st, frames])
         cases.append({"q": q, "items": samples, "tag": "outside" if tagged else "main"})
+    # end-to-end half: generated recordings through `samply import`
+    erng = rng.fork("e2e")
+    for _ in range((120 if quick else 2500) * scale):
+        cases.append({"kind": "e2e", "items": c02e.gen_history(erng)})
     return cases
 
 
 def with_items(case, items):
-    c = dict(case)
+    c = {k: v for k, v in case.items() if not k.startswith("_")}
     c["items"] = items
     return c
+
+
+def _e2e_valid(items):
+    return items
 
 
 def _line(c):
@@ -134,9 +143,21 @@ def _obs_frames(toks):
     return out
 
 
+_e2e_stats = {}
+
+
 def evaluate(cases):
     if not cases:
         return []
+    e2e = [(i, c) for i, c in enumerate(cases) if c.get("kind") == "e2e"]
+    if e2e:
+        rest = [(i, c) for i, c in enumerate(cases) if c.get("kind") != "e2e"]
+        out = [None] * len(cases)
+        for (i, _), v in zip(e2e, c02e.evaluate(PROP, [c for _, c in e2e], _e2e_stats)):
+            out[i] = v
+        for (i, _), v in zip(rest, evaluate([c for _, c in rest])):
+            out[i] = v
+        return out
     ok, log, bindir = K.cargo_build("h_samply")
     if not ok:
         raise K.TieBroken("harness h_samply does not build against the current tree:\n" + log[-1500:])
@@ -170,12 +191,22 @@ def known(case):
 
 
 def describe(case):
+    if case.get("kind") == "e2e":
+        d = {"records": case["items"][:120]}
+        if "_obs" in case:
+            d["observed_samples"] = [[p, t, fr[:12]] for p, t, fr in case["_obs"][:20]]
+        if "_out" in case:
+            d["error"] = case["_out"]
+        return d
     return {"queue": " ".join(" ".join(str(x) for x in o) for o in case["q"]), "samples": [[st, " ".join(fr)] for st, fr in case["items"]]}
 
 
 def distribution(cases):
     d = {"main": 0, "outside": 0, "ops": {}, "op_at_sample_time": 0, "op_after_sample": 0, "frames": {}}
+    d["e2e"] = dict(_e2e_stats)
     for c in cases:
+        if c.get("kind") == "e2e":
+            continue
         d[c["tag"]] += 1
         sts = [s[0] for s in c["items"]]
         for o in c["q"]:
